@@ -19,7 +19,8 @@ RULE = ('cross product ping_interval(8, incl. fractional and (interval,grace)) '
         'x ping_timeout(4) x max_http_buffer_size(3) x allow_upgrades(2) x '
         'transports(3) x cookie(6 forms) x connect-handler outcome(9) x open '
         'kind(polling, websocket, JSONP) x server(threaded, asyncio) [+ '
-        'websocket driver unavailable]; thorough = the whole grid, quick = '
+        'websocket driver unavailable]; in every other cell the connect handler '
+        'also sends a message to the new sid; thorough = the whole grid, quick = '
         'seeded sample of it plus all cells differing from the default in one '
         'coordinate. distinct = distinct cells; every executed cell evaluates '
         'the OPEN/401 reference so every cell is non-trivial')
@@ -28,7 +29,8 @@ ASSUMPTIONS = ['cookie oracle applies to polling/JSONP opens (a WebSocket open '
                'advertised times compared with float(config)*1000 at |d|<1 ms',
                'the probe handshake is attempted only when '
                'max_http_buffer_size >= 6 (the probe frame itself)']
-REQUIRED = ['open_reference', 'upgrade_probe', 'reject_followups', 'cookie']
+REQUIRED = ['open_reference', 'upgrade_probe', 'reject_followups', 'cookie',
+            'greeting_after_open']
 SHARD_TIMEOUT = {'quick': 300, 'thorough': 3000}
 
 PI = [25, 1, 0.5, 1.5, 0.25, [25, 5], [1.5, 0.7], [0.2, 0.1]]
@@ -83,7 +85,13 @@ def run_cell(rec, cell):
           'allow_upgrades': au, 'cookie': cookie}
     if tr is not None:
         kw['transports'] = tr
-    sim = scen.make_sim(srv, server_kwargs=kw, handler_cfg={'connect': [out]},
+    # every other cell: the connect handler greets the client with a message
+    # sent to the new sid (it must follow the OPEN packet)
+    greet = (sum(cell[:9]) % 2 == 1)
+    hcfg = {'connect': [out]}
+    if greet:
+        hcfg['connect_send'] = 'welcome'
+    sim = scen.make_sim(srv, server_kwargs=kw, handler_cfg=hcfg,
                         websocket_available=ws_avail)
     try:
         _cell(rec, sim, case, pi, pt, mb, au, tr, cookie_expect, out, okind,
@@ -240,6 +248,13 @@ def _cell(rec, sim, case, pi, pt, mb, au, tr, cookie_expect, out, okind,
             pkts[:1],), case)
         return
     o = pkts[0][1]
+    if sim.cfg.get('connect_send'):
+        rec.count('greeting_after_open')
+        rest = pkts[1:] if okind != 'websocket' else [
+            decode_packet(f['frame']) for f in h.ws.frames[1:]]
+        if (4, 'welcome') not in rest:
+            V('greeting-lost', 'the message sent by the connect handler does '
+              'not follow the OPEN packet: %r' % (rest[:3],), case)
     if o.get('sid') != hsid:
         V(rec, 'open-sid', 'OPEN sid %r != connect handler sid %r' % (
             o.get('sid'), hsid), case)
